@@ -6,10 +6,15 @@ Tr == JsonDeserialize(IOEnv.TRACE_FILE)
 \* '/c/<reserved name>' on a youtube host: the channel's canonical url collides with a route of the site
 ReservedChannelName(u) ==
   LET lo == Lower(u)
-      pathStart == LET a == FindSub(lo, <<47, 99, 47>>) IN a          \* first "/c/"
-      rest == IF pathStart = 0 THEN <<>> ELSE From(lo, pathStart + 3)
+      \* first "/c/" - or "/@": a handle written '@<route name>' meets the same template
+      pc == FindSub(lo, <<47, 99, 47>>)
+      pa == FindSub(lo, <<47, 64>>)
+      pathStart == IF pc # 0 THEN pc ELSE pa
+      rest == IF pathStart = 0 THEN <<>> ELSE From(lo, pathStart + (IF pc # 0 THEN 3 ELSE 2))
       stop == FirstPosIn(rest, {47, 63, 35})
-      name == IF stop = 0 THEN rest ELSE SubSeq(rest, 1, stop - 1)
+      name0 == IF stop = 0 THEN rest ELSE SubSeq(rest, 1, stop - 1)
+      name == IF name0 # <<>> /\ name0[1] = 64 THEN Tail(name0) ELSE name0              \* '/c/@watch'
+
   IN pathStart # 0 /\ HasSub(lo, <<121,111,117,116,117>>) /\ \E i \in 1..Len(D19.reserved_channel_names) : D19.reserved_channel_names[i] = name
 \* a '[' or ']' in the authority that is not a well-formed IPv6 literal: urllib's urlsplit raises ValueError, which every
 \* function built on safe_urlsplit lets through (library-wide convention, open finding KF-C19-2)
